@@ -525,10 +525,83 @@ def dwf_results():
     return out
 
 
+SERVICE_REQUESTS = ["SizeOracle.get_size(f, measure=42)", "FNode.size(measure=-1)", "EagerModel.get_value(term over an unassigned String symbol)",
+                    "EagerModel.get_value(term over an unassigned array symbol)", "Model[non-constant]"]
+
+
+def _service_failure_job(idx):
+    """Rejected requests to services and model objects (an unknown size measure, a completion the model cannot make): the request
+    is rejected again when it is repeated, and later requests on the same object answer as on a twin that never saw it."""
+    name = SERVICE_REQUESTS[idx]
+
+    def one(ex):
+        def world(with_failure):
+            it, w, env = _fresh(ex)
+            x, y, a = env["x"], env["y"], env["a"]
+            f = w.app("And", a, w.app("LT", w.app("Plus", x, y), w.app("Int", 3)))
+            outs = []
+            if name.startswith(("SizeOracle", "FNode.size")):
+                so = it.getattr(w.env, "sizeo")
+
+                def bad():
+                    if name.startswith("SizeOracle"):
+                        return it.call(it.getattr(so, "get_size"), [f], {"measure": 42})
+                    return it.call(it.getattr(f, "size"), [], {"measure": -1})
+
+                def later():
+                    return [it.call(it.getattr(so, "get_size"), [f], {"measure": m}) for m in (0, 1, 3, 0)] + [it.call(it.getattr(f, "size"), [])]
+            else:
+                st = w.symbol("st_unassigned", ("STRING",))
+                arr = w.symbol("arr_unassigned", ("ARRAY", INT, INT))
+                model = it.instantiate(ClassRef("pysmt.solvers.eager.EagerModel"), [{x: w.app("Int", 1), a: w.app("Bool", True)}, w.env], {})
+
+                def bad():
+                    if "String" in name:
+                        return it.call(it.getattr(model, "get_value"), [w.app("Equals", w.app("StrLength", st), x)], {"model_completion": True})
+                    if "array" in name:
+                        return it.call(it.getattr(model, "get_value"), [w.app("Equals", w.app("Select", arr, x), x)], {"model_completion": True})
+                    return it.call(it.getattr(model, "__getitem__"), [w.app("Plus", x, w.symbol("zz_free", INT))]) if False else \
+                        it.call(it.getattr(model, "get_value"), [w.app("Plus", x, w.symbol("zz_free", INT))], {"model_completion": False})
+
+                def later():
+                    r = []
+                    for t, comp in ((w.app("Plus", x, w.app("Int", 1)), True), (w.app("And", a, w.app("LT", x, y)), True), (y, True), (w.app("Plus", x, y), False)):
+                        try:
+                            v = it.call(it.getattr(model, "get_value"), [t], {"model_completion": comp})
+                            r.append(("returns", w.to_str(it, v)[1]))
+                        except AbsRaise as ex_:
+                            r.append(("raises", ex_.cls_name))
+                    return r
+            if with_failure:
+                for _ in range(2):
+                    try:
+                        r = bad()
+                        outs.append("returns %r" % (w.to_str(it, r)[1] if isinstance(r, AObj) else r,))
+                    except AbsRaise as ex_:
+                        outs.append("raises " + ex_.cls_name)
+            return outs, later()
+        (outs, got) = world(True)
+        (_o, want) = world(False)
+        if not outs[0].startswith("raises"):
+            return ("ok", "request " + name, "not rejected (%s): no failing call" % outs[0])
+        if outs[1] != outs[0]:
+            return ("bad", "service-second|%s" % name, "the request %s %s the first time and %s when it is repeated" % (name, outs[0], outs[1]))
+        if got != want:
+            return ("bad", "service-later|%s" % name, "after the request %s was rejected (%s) later requests on the same object give %r; on a twin that "
+                    "never saw it: %r" % (name, outs[0], got, want))
+        return ("ok", "request " + name, "rejected twice (%s), later requests as on a twin" % outs[0])
+    try:
+        paths = Explorer(max_paths=4).run(one)
+    except Unsupported as e:
+        return [("unsupported", name, str(e))]
+    return [p.value if p.kind == "return" else ("unsupported", name, "%s %s" % (p.kind, str(p.value)[:200])) for p in paths]
+
+
 def failure_results():
     out = []
     for r in (parallel_map(_failure_job, list(range(len(ill_typed())))) + parallel_map(_type_failure_job, list(range(8)))
-              + parallel_map(_request_failure_job, list(range(len(REQUESTS))))):
+              + parallel_map(_request_failure_job, list(range(len(REQUESTS))))
+              + parallel_map(_service_failure_job, list(range(len(SERVICE_REQUESTS))))):
         out.extend(r)
     return out
 
